@@ -523,9 +523,9 @@ func (p Parameters) MaxBit(levelQ, levelP int) (c int) {
 // If levelP > 0 or Base2Decomposition == 0, then returns 1 for all qi.
 func (p Parameters) BaseTwoDecompositionVectorSize(levelQ, levelP, Base2Decomposition int) (base []int) {
 
-	logqi := p.LogQi()
+	qi := p.Q()
 
-	base = make([]int, len(logqi))
+	base = make([]int, len(qi))
 
 	if Base2Decomposition == 0 || levelP > 0 {
 		for i := range base {
@@ -533,7 +533,9 @@ func (p Parameters) BaseTwoDecompositionVectorSize(levelQ, levelP, Base2Decompos
 		}
 	} else {
 		for i := range base {
-			base[i] = (logqi[i] + Base2Decomposition - 1) / Base2Decomposition
+			// The digits have to cover every bit of qi: its bit length, not its
+			// rounded logarithm (one less for a prime slightly above a power of two).
+			base[i] = (bits.Len64(qi[i]) + Base2Decomposition - 1) / Base2Decomposition
 		}
 	}
 
